@@ -58,6 +58,10 @@ var Registry = map[string]*Check{}
 
 func Register(c *Check) { Registry[c.ID] = c }
 
+func PkgPath(dir string) string { return pkgPath(dir) }
+
+func ZZVrtFile() vm.HarnessFile { return zzvrtFile }
+
 func pkgPath(dir string) string {
 	if dir == "" {
 		return vm.RepoModule
@@ -424,7 +428,11 @@ func Run(id, tier string, seed int, workers int) int {
 				results[i] = caseOutcome{c, res}
 				// translator validation runs (concrete mode) on sampled path models
 				for _, sm := range res.Samples {
+					tc := time.Now()
 					co := m.RunConcrete(spec, sm)
+					if os.Getenv("VERIF_SLOW") != "" && time.Since(tc) > 2*time.Second {
+						fmt.Printf("SLOWCONC %s %s %v\n", c.ID, time.Since(tc), sm)
+					}
 					concMu.Lock()
 					concRuns = append(concRuns, concRec{c, sm, co})
 					concMu.Unlock()
@@ -436,6 +444,9 @@ func Run(id, tier string, seed int, workers int) int {
 		}()
 	}
 	wg.Wait()
+	if os.Getenv("VERIF_SLOW") != "" {
+		fmt.Printf("PHASE explore done at %.1fs\n", time.Since(t0).Seconds())
+	}
 
 	// ---- collect findings, write replays
 	known := loadKnown()
@@ -488,6 +499,9 @@ func Run(id, tier string, seed int, workers int) int {
 		var nerrs []string
 		native, nerrs = runNative(ld, firstVM, chk, workDir, byPkg)
 		toolErrors = append(toolErrors, nerrs...)
+	}
+	if os.Getenv("VERIF_SLOW") != "" {
+		fmt.Printf("PHASE native done at %.1fs\n", time.Since(t0).Seconds())
 	}
 	validated, mismatches := 0, 0
 	for _, cp := range cpend {
@@ -632,6 +646,21 @@ func summarize(chk *Check, results []caseOutcome, st *smt.Stats, validated, mism
 		panics += r.res.PanicPaths
 		for _, n := range r.res.Inconclusive {
 			incon += n
+		}
+	}
+	if os.Getenv("VERIF_SLOW") != "" {
+		type sc struct {
+			id string
+			w  time.Duration
+			q  int
+		}
+		var all []sc
+		for _, r := range results {
+			all = append(all, sc{r.c.ID, r.res.Wall, r.res.Solver.Queries})
+		}
+		sort.Slice(all, func(i, j int) bool { return all[i].w > all[j].w })
+		for i := 0; i < len(all) && i < 12; i++ {
+			fmt.Printf("SLOW %s wall=%s queries=%d\n", all[i].id, all[i].w, all[i].q)
 		}
 	}
 	fmt.Printf("SUMMARY property=%s cases=%d paths=%d panic_paths=%d inconclusive_paths=%d queries=%d solver_s=%.1f validated=%d mismatches=%d wall_s=%.1f\n",
